@@ -279,6 +279,11 @@ class SwapAnalysis(progcheck.ProgramAnalysis):
             else:
                 wold.host.state_words()[:] = [Sc('u64', w) for w in ws]
             snapshot = list(wold.host.state_words())
+            # The uninterrupted oracle is the old engine as it was BEFORE the swap: try_hot_swap gets `&mut` access to the retiring
+            # engine too, and a defect there (e.g. copying run-time parameters in the wrong direction) must not drag the oracle
+            # along.  Its host-side RuntimeState is restored from this snapshot before the oracle runs.
+            from mirsym.values import clone_val as _clone_val
+            rs_before = [_clone_val(f) for f in wold.host.rs.fields]
             # the uninterrupted oracle keeps the old engine (try_hot_swap moves it to the retire channel, it is not dropped)
             worc = WasmRun.__new__(WasmRun)
             worc.__dict__.update(wold.__dict__)
@@ -337,6 +342,8 @@ class SwapAnalysis(progcheck.ProgramAnalysis):
             now = Sc('u64', z3.BitVec('now0', 64)) if not (an.pre_steps or an.fresh) else Sc('u64', an.pre_steps)
             if not (an.pre_steps or an.fresh):
                 it.smt.add(z3.ULT(now.v, 1 << 52))
+            for _i in range(1, len(rs_before)):          # field 0 is the handle of the instance's linear memory
+                wold.host.rs.fields[_i] = rs_before[_i]
             worc.set_input(ins[:n_in_o])
             _, o_old = worc.run_dsp(now)
             wold.set_input(ins[:n_in_n])
